@@ -17,7 +17,7 @@ Ltac conj_compute := repeat (match goal with |- _ /\ _ => split end); vm_compute
    the pattern's literal prefix replaces the requested prefix *)
 Lemma refuted_prefix_and_pattern :
   let d := live_dir ["a"; "ab"; "b"] in
-  wf d /\ trig_both "b" "a*" = true /\
+  wf d /\ trig_narrow "b" "a*" = true /\
   (exists r, list_entries Lvl d "" false 10 "b" "a*" "" = Some (["a"; "ab"], false, r)) /\
   (exists r, list_entries Gen d "" false 10 "b" "a*" "" = Some (["a"; "ab"], false, r)) /\
   spec_names d "" false "b" "a*" "" = [] /\
@@ -34,7 +34,7 @@ Qed.
    the name WITHOUT the requested prefix *)
 Lemma refuted_prefix_and_pattern_rest :
   let d := live_dir ["a"; "ab"; "b"] in
-  wf d /\ trig_both "a" "?b" = true /\
+  wf d /\ trig_narrow "a" "?b" = true /\
   (exists r, list_entries Lvl d "" false 10 "a" "?b" "" = Some ([], false, r)) /\
   spec_names d "" false "a" "?b" "" = ["ab"] /\
   ~ exact_at Lvl d "" false 10 "a" "?b" "".
@@ -71,7 +71,7 @@ Definition ex_dir : dirst :=
 
 Example exact_example :
   wf ex_dir /\
-  trig_both "" "a*" = false /\
+  trig_narrow "" "a*" = false /\
   (exists r, list_entries Lvl ex_dir "a" false 1 "" "a*" "*c" = Some (["ab"], false, r) /\
              map ename (r_dir r) = ["a"; "ab"; "b"; "b0"; "ba"; "c"]) /\
   (exists r, list_entries Gen ex_dir "a" false 1 "" "a*" "*c" = Some (["ab"], false, r) /\
@@ -98,3 +98,16 @@ Example refill_example :
   exists r, list_valid Lvl ex_dir "" true 3 "a" = Some r /\
             r_names r = ["a"; "ab"] /\ map ename (r_dir r) = ["a"; "ab"; "b"; "b0"; "ba"; "c"].
 Proof. eexists. conj_compute. Qed.
+
+(* prefix and pattern together, but the pattern's literal prefix extends the prefix: outside the
+   narrowed trigger, served exactly *)
+Example narrow_example :
+  trig_both "a" "ab*" = true /\ trig_narrow "a" "ab*" = false /\
+  (exists r, list_entries Lvl ex_dir "" false 5 "a" "ab*" "" = Some (["ab"], false, r)) /\
+  (exists r, list_entries Gen ex_dir "" false 5 "a" "ab*" "" = Some (["ab"], false, r)) /\
+  spec_names ex_dir "" false "a" "ab*" "" = ["ab"].
+Proof.
+  split; [reflexivity|]. split; [reflexivity|].
+  split; [eexists; vm_compute; reflexivity|]. split; [eexists; vm_compute; reflexivity|].
+  vm_compute; reflexivity.
+Qed.
